@@ -13,6 +13,14 @@ A_SEQ = "A-SEQ: requests are dispatched one at a time (socketserver.TCPServer is
 COMMON = [A_PYSEM, A_SMT, A_DEV_WF, A_LIB]
 TB = ["spec/device.py (exchange contract, A-DEV-WF)"]
 
+def _c10a_replay(tier, seed):
+    import subprocess, os, json
+    here = os.path.dirname(os.path.dirname(os.path.abspath(__file__)))
+    p = subprocess.run(["/venv/bin/python", os.path.join(here, "replay", "native.py")], capture_output=True, text=True, timeout=120)
+    return dict(name="native-replay-C10-a", bounded=False, status="ok", output=(p.stdout + p.stderr)[-600:],
+                reproduced=p.stdout.strip().startswith("(True"))
+
+
 PROPS = {
     "C01": dict(level="proof", assumptions=COMMON + [A_FW, A_BTC], trusted_base=TB,
                 explanation="contracts on the real signing path, discharged per function"),
@@ -30,6 +38,17 @@ PROPS = {
                 explanation="exceptions are path outcomes; every path out of _RequestHandler.handle is an obligation"),
     "C09": dict(level="proof", assumptions=COMMON + ["A-PLATFORM: Platform.set was called with a valid platform"],
                 trusted_base=TB, explanation="the whole product of device answers is symbolic; dominance of unlock by its preconditions"),
+    "C05": dict(level="proof", assumptions=COMMON + [A_FW, "A-RLP / A-KECCAK: rlp.decode/encode, keccak as uninterpreted functions (spec/rlp_ext.py)",
+                                                       "coinbase_tx_get_hash: assumed contract (SHA-256 midstate code out of reach)",
+                                                       "sorted(): result is the input ordered ascending by key (spec/sorting.py)",
+                                                       "scope: announced count, per-header metadata/chunk framing, result codes; the global order of all headers as one formula is not stated (DESIGN 5.C05)"],
+                trusted_base=TB + ["spec/rlp_ext.py", "spec/sorting.py"],
+                explanation="block operations verified with the real status tables inlined; chunk framing by the loop invariant of _send_data_in_chunks"),
+    "C10": dict(level="other", assumptions=COMMON + ["A-FS: open/write may fail at any call; 'wb' truncates (spec/fs.py)",
+                                                       "crash = failure of the next effectful call (process crashes between statements are covered by the same outcomes of open/write only)"],
+                trusted_base=TB + ["spec/fs.py"],
+                explanation="clauses 1-4 of the property are proved; clause 5 (a PIN that opens the device is always recoverable) fails on the unchanged tree: known finding C10-a, reproduced natively on every run",
+                extras=[_c10a_replay]),
     "C13": dict(level="proof", assumptions=COMMON + [A_FW], trusted_base=TB + ["spec/firmware.py"],
                 explanation="reply fields are equated with the answers recorded in the ghost log, selectors from the firmware headers"),
 }
